@@ -10,9 +10,64 @@ Open Scope Z_scope.
 (* the shunting-yard parser (pre-pass, main loop with argument counting, AST
    construction) computes the tree of Excel's grammar: for every well-formed
    concrete tree — any depth, any redundant parentheses, prefix -, postfix %,
-   the binary operators at their levels, left-associative, function calls with
-   any number of (possibly omitted) arguments — parsing its token string gives
-   its meaning.  (Array constants are outside WF: correspondence only.) *)
+   the binary operators at their levels (comparison < & < + - < * / < ^ < % <
+   prefix - < reference operators), left-associative, function calls with any
+   number of (possibly omitted) arguments — parsing its token string gives its
+   meaning.  (Array constants are outside WF: correspondence only.) *)
 Theorem C02_parse : forall c, WF c -> parse (flat c) = Some (abs c).
 Proof. exact parse_correct. Qed.
 Print Assumptions C02_parse.
+
+(* the RPN itself is the postfix form of the tree *)
+Theorem C02_rpn : forall c, WF c -> sy (flat c) = Some (post c).
+Proof. exact sy_correct. Qed.
+Print Assumptions C02_rpn.
+
+(* the operator table the proofs compute with is the generated Token.precedences *)
+Theorem C02_precedence_table :
+  (forall o, sprec (SBin o) = bprec o /\ sleft (SBin o) = true)
+  /\ sprec SPre = 7 /\ sleft SPre = false /\ sprec SPost = 6 /\ sleft SPost = true.
+Proof.
+  exact (conj (fun o => conj (sprec_bin o) (sleft_bin o))
+              (conj sprec_pre (conj sleft_pre (conj sprec_post sleft_post)))).
+Qed.
+Print Assumptions C02_precedence_table.
+
+(* the emitted code is precedence-correct in PYTHON's grammar and denotes the
+   Python tree that means e — for the arithmetic fragment (no reference
+   operators, arrays, ROW/COLUMN/OFFSET/INDIRECT/SUBTOTAL) and PROVIDED no
+   prefix minus is the left operand of ^.
+   Missing for the full statement: exactly that proviso (the implementation
+   emits a prefix minus bare: refuted in Refuted/C02_emit_neg_pow.v), and the
+   uniqueness of Python's parse (PyWF t -> ast.parse (pyflat t) = pyabs t),
+   which is checked against CPython in the harness, in both directions. *)
+Theorem C02_emit_partial : forall e, arith e -> no_neg_pow_left e ->
+  forall par, PyWF (emit par e) /\ pyabs (emit par e) = translate e.
+Proof. exact emit_partial. Qed.
+Print Assumptions C02_emit_partial.
+
+(* OperatorNode.op_map (generated): ^ -> **, = -> ==, <> -> != *)
+Theorem C02_op_map :
+  map pyop_of [OEq; ONe; OLt; OLe; OGt; OGe; OCat; OAdd; OSub; OMul; ODiv; OPow; OIsect; OColon; OUnion]
+  = [Some PEq; Some PNe; Some PLt; Some PLe; Some PGt; Some PGe; Some PBitAnd; Some PAdd; Some PSub;
+     Some PMul; Some PDiv; Some PPow; None; None; None].
+Proof. exact op_map_ok. Qed.
+Print Assumptions C02_op_map.
+
+(* a text literal without backslash, line feed, carriage return denotes its
+   characters (any length, any number of quotes, braces, ...).
+   Missing: backslash / newline (refuted in Refuted/C02_literals.v). *)
+Theorem C02_text_partial : forall s,
+  Forall (fun c => c <> 92 /\ c <> 10 /\ c <> 13) s ->
+  py_string_literal (emit_text (excel_quote s)) = Some s.
+Proof. exact text_partial. Qed.
+Print Assumptions C02_text_partial.
+
+(* an integer literal without superfluous leading zeros is a Python literal of
+   the same value.  Missing: leading zeros (refuted), decimals / exponents
+   (correspondence only). *)
+Theorem C02_number_partial : forall s, s <> [] -> forallb is_digit s = true ->
+  (hd 0 s <> 48 \/ forallb (fun d => d =? 48) s = true) ->
+  py_decint s = Some (dec_value s 0).
+Proof. exact number_partial. Qed.
+Print Assumptions C02_number_partial.
